@@ -45,6 +45,7 @@ import (
 	pb "github.com/mgtv-tech/redis-GunYu/pkg/api/golang"
 	"github.com/mgtv-tech/redis-GunYu/pkg/cluster"
 	"github.com/mgtv-tech/redis-GunYu/pkg/log"
+	"github.com/mgtv-tech/redis-GunYu/pkg/store"
 	usync "github.com/mgtv-tech/redis-GunYu/pkg/sync"
 	"github.com/mgtv-tech/redis-GunYu/pkg/vfutil"
 )
@@ -159,6 +160,17 @@ type c16Leader struct {
 type c16Halt struct {
 	K     int
 	Fault bool
+	Err   bool // … with an ERROR answer: the id check after a read found the channel relabelled
+}
+
+func (h *c16Halt) end() string {
+	switch {
+	case h.Err:
+		return "2"
+	case h.Fault:
+		return "1"
+	}
+	return "0"
 }
 
 // the leader's contents once the tail has arrived
@@ -189,7 +201,7 @@ func (l c16Leader) String() string {
 	}
 	halt := "-"
 	if l.Halt != nil {
-		halt = fmt.Sprintf("%d,%s", l.Halt.K, c16B(l.Halt.Fault))
+		halt = fmt.Sprintf("%d,%s", l.Halt.K, l.Halt.end())
 	}
 	return fmt.Sprintf("%s:%s:%s:%s:%s:%s:%s:%s", c16B(l.Serving), c16B(l.Started), ids, c16Id(l.Cur), l.D.String(), c16B(l.WOpen), vfutil.Hex(l.Tail), halt)
 }
@@ -212,7 +224,7 @@ func c16ParseLeader(s string) c16Leader {
 	if f[7] != "-" {
 		q := strings.Split(f[7], ",")
 		k, _ := strconv.Atoi(q[0])
-		l.Halt = &c16Halt{K: k, Fault: len(q) > 1 && q[1] == "1"}
+		l.Halt = &c16Halt{K: k, Fault: len(q) > 1 && q[1] == "1", Err: len(q) > 1 && q[1] == "2"}
 	}
 	if f[2] != "." {
 		for _, x := range strings.Split(f[2], ",") {
@@ -231,6 +243,38 @@ type c16Round struct {
 	Quiet   bool        // the cut happens when the follower has persisted everything it received
 	Restart bool        // (disk) the follower process is restarted before this session
 	Stop    int         // >0: the leader is stopped (its syncer's wait closed) once that many CONTINUE messages of a transfer are out
+	Relabel int         // >0: the leader's input relabels the channel (source fail-over: writer closed, SetRunId(other id), new writer, the new master's bytes) once that many CONTINUE messages of a STREAM transfer are out — its stream reader is open
+	RelRead bool        // the same relabel, but at the instant the leader's stream reader has delivered everything the old id holds and sendData's next ioReader.Read is entered (it would block): the new master's bytes are what that read returns — between the read and the id check
+	WFault  int         // >0: (disk follower) the follower's store fails the file write that would take the payload of this session's FIRST transfer past WFault bytes (descriptor closed underneath the writer: EIO / ENOSPC)
+	WSync   int         // >0: (disk follower) when WSync payload bytes of the snapshot being received are on its file, the rest of the writer's output is lost and its fsync at the commit fails (a pipe dup2'ed over the descriptor: writes "succeed", Sync returns an error)
+	WRename bool        // (disk follower) the commit (rename) of the snapshot received in this session fails
+	Crash   int         // >0: (disk follower) before this session the follower process is killed: it restarts over the directory image frozen when Crash payload bytes of the PREVIOUS session's transfer had been written
+}
+
+func (r c16Round) extras() string {
+	var p []string
+	if r.Relabel > 0 {
+		p = append(p, fmt.Sprintf("rl=%d", r.Relabel))
+	}
+	if r.RelRead {
+		p = append(p, "rr=1")
+	}
+	if r.WFault > 0 {
+		p = append(p, fmt.Sprintf("wf=%d", r.WFault))
+	}
+	if r.WSync > 0 {
+		p = append(p, fmt.Sprintf("ws=%d", r.WSync))
+	}
+	if r.WRename {
+		p = append(p, "wr=1")
+	}
+	if r.Crash > 0 {
+		p = append(p, fmt.Sprintf("cr=%d", r.Crash))
+	}
+	if len(p) == 0 {
+		return "-"
+	}
+	return strings.Join(p, ",")
 }
 
 func (r c16Round) view(n int) [6]int {
@@ -273,7 +317,7 @@ func (r c16Round) viewsString() string {
 }
 
 func (r c16Round) String() string {
-	return fmt.Sprintf("%s@%s@%d@%d@%s@%s@%d", r.lsString(), r.viewsString(), r.Cut, r.Split, c16B(r.Quiet), c16B(r.Restart), r.Stop)
+	return fmt.Sprintf("%s@%s@%d@%d@%s@%s@%d@%s", r.lsString(), r.viewsString(), r.Cut, r.Split, c16B(r.Quiet), c16B(r.Restart), r.Stop, r.extras())
 }
 
 func c16ParseRound(rs string) (r c16Round, err error) {
@@ -284,10 +328,38 @@ func c16ParseRound(rs string) (r c16Round, err error) {
 	if len(q) == 6 {
 		q = append(q, "0")
 	}
-	if len(q) != 7 {
+	if len(q) == 7 {
+		q = append(q, "-")
+	}
+	if len(q) != 8 {
 		return r, fmt.Errorf("bad round %q", rs)
 	}
 	r.Stop, _ = strconv.Atoi(q[6])
+	if q[7] != "-" {
+		for _, kv := range strings.Split(q[7], ",") {
+			f := strings.SplitN(kv, "=", 2)
+			if len(f) != 2 {
+				return r, fmt.Errorf("bad round extras %q", q[7])
+			}
+			n, _ := strconv.Atoi(f[1])
+			switch f[0] {
+			case "rl":
+				r.Relabel = n
+			case "rr":
+				r.RelRead = n == 1
+			case "wf":
+				r.WFault = n
+			case "ws":
+				r.WSync = n
+			case "wr":
+				r.WRename = n == 1
+			case "cr":
+				r.Crash = n
+			default:
+				return r, fmt.Errorf("bad round extras %q", q[7])
+			}
+		}
+	}
 	for _, ls := range strings.Split(q[0], ";") {
 		r.Ls = append(r.Ls, c16ParseLeader(ls))
 	}
@@ -672,7 +744,10 @@ func c16ObserveAPI(ch Channel) (cur string, d *c16Data, problems []string, stall
 }
 
 // what the disk backend holds in every run-id directory
-func c16ObserveDisk(dir string) (dirs []c16Entry, problems []string) {
+// after a kill a `.rdb.tmp` may be left in a directory (a fresh Storer never reads it; the next
+// reset of the directory removes it): c16TolerateTmp says whether the case being run has a crash
+// restart (per goroutine: cases of one worker run one after the other)
+func c16ObserveDisk(dir string, tolerateTmp bool) (dirs []c16Entry, problems []string) {
 	ents, _ := os.ReadDir(dir)
 	for _, e := range ents {
 		if !e.IsDir() {
@@ -714,6 +789,8 @@ func c16ObserveDisk(dir string) (dirs []c16Entry, problems []string) {
 				}
 				d.HasSnap, d.Snap, d.Base = true, b, left
 				any = true
+			case strings.HasSuffix(f.Name(), ".rdb.tmp") && tolerateTmp:
+				// left by the killed process
 			default:
 				problems = append(problems, id+": leftover file "+f.Name())
 			}
@@ -750,11 +827,11 @@ func c16SameData(a, b *c16Data) bool {
 
 // c16Observe returns the follower's store and structural problems
 // (non-contiguous segments, API/file disagreement, unreadable ranges).
-func c16Observe(bk string, ch Channel, dir string) (c16Store, []string, int) {
+func c16Observe(bk string, ch Channel, dir string, tolerateTmp bool) (c16Store, []string, int) {
 	var st c16Store
 	var problems []string
 	if bk == "d" {
-		st.Dirs, problems = c16ObserveDisk(dir)
+		st.Dirs, problems = c16ObserveDisk(dir, tolerateTmp)
 		st.Cur = ch.RunId()
 		if st.Cur != "" {
 			// the next user of the channel re-reads the directory first (StartPoint -> VerifyRunId)
@@ -848,13 +925,43 @@ func (rt *c16LeaderRT) moveTo(j int) {
 	}
 }
 
+// failover performs, on the real channel, the input's reconnect after a PSYNC2 fail-over of the
+// source that is answered +CONTINUE <new id>: the cache is kept and relabelled, the new master's
+// bytes follow at the same offset (syncer/input.go syncMeta: setRunIds, channel.SetRunId; syncData:
+// NewAofWritter(locSp.Offset))
+func (rt *c16LeaderRT) failover() (appended int64) {
+	if rt.err != nil {
+		return
+	}
+	cur := rt.lch.RunId()
+	other := "idC"
+	if cur == "idC" {
+		other = "idD"
+	}
+	rt.closeW()
+	rt.input.set([]string{other, cur})
+	if rt.err = rt.lch.SetRunId(other); rt.err != nil {
+		return
+	}
+	sp, _ := rt.lch.StartPoint(nil)
+	if sp.Offset < 0 {
+		return
+	}
+	if rt.closeW, rt.appendW, rt.err = c16FillW(rt.lch, &c16Data{Base: sp.Offset}, true); rt.err == nil {
+		rt.err = rt.appendW(c16HistSeg(other, sp.Offset, sp.Offset+97))
+		appended = 97
+	}
+	return
+}
+
 // the leader's channel as Handle sees it: IsValidOffset and NewReader are read points
 type c16LChan struct {
 	Channel
 	hook func(point int)
+	ss   *c16Sess
 }
 
-func (c *c16LChan) RunId() string { c.hook(1); return c.Channel.RunId() } // selfInspection
+func (c *c16LChan) RunId() string { c.hook(1); return c.Channel.RunId() } // selfInspection (first read of a request); sendData's check after every read of its loop (not a read point: hook ignores it)
 func (c *c16LChan) StartPoint(ids []string) (StartPoint, error) { // Handle: StartPoint(nil)
 	c.hook(3)
 	return c.Channel.StartPoint(ids)
@@ -862,7 +969,216 @@ func (c *c16LChan) StartPoint(ids []string) (StartPoint, error) { // Handle: Sta
 func (c *c16LChan) IsValidOffset(o Offset) bool { c.hook(4); return c.Channel.IsValidOffset(o) }
 func (c *c16LChan) NewReader(o Offset) (ChannelReader, error) {
 	c.hook(5)
-	return c.Channel.NewReader(o)
+	rd, err := c.Channel.NewReader(o)
+	if err == nil && c.ss != nil && c.ss.round.RelRead && rd.IsAof() {
+		return &c16LReader{ChannelReader: rd, ss: c.ss, off: o.Offset}, nil
+	}
+	return rd, err
+}
+
+// c16LReader is the leader's stream reader with a read point INSIDE sendData's loop: when
+// everything the old id holds has been handed to sendData and its next ioReader.Read is entered
+// (the read that would block for more), the leader's input fails over (relabel, new writer,
+// the new master's bytes): that read returns the NEW history's bytes — the instant between
+// the read and the id check.
+type c16LReader struct {
+	ChannelReader
+	ss  *c16Sess
+	off int64
+	br  *bufio.Reader
+	n   int64
+}
+
+func (r *c16LReader) IoReader() *bufio.Reader {
+	if r.br == nil {
+		r.br = bufio.NewReaderSize(&c16ReadPoint{r: r, in: r.ChannelReader.IoReader()}, 4096)
+	}
+	return r.br
+}
+
+type c16ReadPoint struct {
+	r  *c16LReader
+	in *bufio.Reader
+}
+
+func (p *c16ReadPoint) Read(b []byte) (int, error) {
+	ss := p.r.ss
+	ss.mu.Lock()
+	now := !ss.stopped && ss.aofOn && ss.xright >= 0 && p.r.off+p.r.n >= ss.xright
+	if now {
+		ss.stopped, ss.stopRPC, ss.relabel = true, ss.rpc, true
+		ss.readsAt, ss.relOff = len(ss.reads[ss.rpc]), ss.aofStart
+		if ss.halts == nil {
+			ss.halts = map[int]*c16Halt{}
+		}
+		ss.halts[ss.rpc] = &c16Halt{K: ss.contRPC}
+	}
+	ss.mu.Unlock()
+	if now {
+		ss.rt.failover()
+	}
+	n, err := p.in.Read(b)
+	p.r.n += int64(n)
+	return n, err
+}
+
+// ---------------------------------------------------------------- faults of the follower's own store
+
+// c16FChan is the follower's channel as its ReplicaFollower sees it: the real channel, except
+// that the io.Reader a snapshot / stream writer ingests from is wrapped when the round asks for
+// a fault of the follower's store. The wrapper acts between two reads of the writer's ingest()
+// loop, i.e. between two file writes — deterministically, whatever the chunking on the wire.
+type c16FChan struct {
+	Channel
+	dir     string
+	mu      sync.Mutex
+	wfault  int   // >0: every writer gets wfault payload bytes onto its file, the next write fails
+	wrename bool  // the commit (rename) of a completely written snapshot fails
+	wsync   int   // >0: a snapshot writer's output beyond wsync bytes is lost, its fsync fails
+	keep    []*os.File
+	freeze  int   // >0: when a writer has written freeze payload bytes the directory tree is copied (the image a kill at that instant leaves)
+	image   string // where the frozen image is
+	fired   bool  // a fault was injected AND a byte was handed to the writer afterwards
+	frozen  bool
+}
+
+func (c *c16FChan) arm(wfault int, wrename bool, wsync int, freeze int, image string) {
+	c.mu.Lock()
+	c.wfault, c.wrename, c.wsync, c.freeze, c.image, c.fired, c.frozen = wfault, wrename, wsync, freeze, image, false, false
+	for _, f := range c.keep {
+		f.Close()
+	}
+	c.keep = nil
+	c.mu.Unlock()
+}
+
+func (c *c16FChan) state() (fired, frozen bool) {
+	c.mu.Lock()
+	defer c.mu.Unlock()
+	return c.fired, c.frozen
+}
+
+type c16FaultReader struct {
+	r      io.Reader
+	c      *c16FChan
+	w      interface{} // the writer ingesting from this reader
+	n      int         // payload bytes handed to the writer so far
+	total  int64       // snapshot: announced size
+	k      int
+	sync   bool // at k: lose the rest and fail the fsync (instead of failing the next write)
+	rename bool
+	freeze int
+	done   bool
+}
+
+func (f *c16FaultReader) Read(p []byte) (int, error) {
+	if f.freeze > 0 && !f.done {
+		if f.n < f.freeze {
+			if len(p) > f.freeze-f.n {
+				p = p[:f.freeze-f.n]
+			}
+			n, err := f.r.Read(p)
+			f.n += n
+			return n, err
+		}
+		// exactly `freeze` payload bytes are in the file (ingest writes before it reads on): the
+		// image a kill at this instant leaves
+		f.done = true
+		c16CopyTree(f.c.dir, f.c.image)
+		f.c.mu.Lock()
+		f.c.frozen = true
+		f.c.mu.Unlock()
+	}
+	if f.k > 0 && !f.done {
+		if f.n < f.k {
+			if len(p) > f.k-f.n {
+				p = p[:f.k-f.n]
+			}
+			n, err := f.r.Read(p)
+			f.n += n
+			return n, err
+		}
+		n, err := f.r.Read(p)
+		if n > 0 {
+			f.done = true
+			if f.sync {
+				if pr := store.VerifLoseSync(f.w); pr != nil {
+					f.c.mu.Lock()
+					f.c.fired = true
+					f.c.keep = append(f.c.keep, pr)
+					f.c.mu.Unlock()
+				}
+			} else {
+				store.VerifBreakFile(f.w)
+				f.c.mu.Lock()
+				f.c.fired = true
+				f.c.mu.Unlock()
+			}
+		}
+		f.n += n
+		return n, err
+	}
+	if f.rename && !f.done {
+		n, err := f.r.Read(p)
+		f.n += n
+		if n > 0 && int64(f.n) == f.total {
+			f.done = true
+			if store.VerifLoseRdbTmp(f.w) {
+				f.c.mu.Lock()
+				f.c.fired = true
+				f.c.mu.Unlock()
+			}
+		}
+		return n, err
+	}
+	return f.r.Read(p)
+}
+
+func (c *c16FChan) NewRdbWriter(r io.Reader, off int64, size int64) (RdbChannelWriter, error) {
+	c.mu.Lock()
+	k, ren, fz, ws := c.wfault, c.wrename, c.freeze, c.wsync
+	c.mu.Unlock()
+	if k == 0 && !ren && fz == 0 && ws == 0 {
+		return c.Channel.NewRdbWriter(r, off, size)
+	}
+	fr := &c16FaultReader{r: r, c: c, total: size, k: k, rename: ren, freeze: fz}
+	if ws > 0 {
+		fr.k, fr.sync = ws, true
+	}
+	w, err := c.Channel.NewRdbWriter(fr, off, size)
+	fr.w = w
+	return w, err
+}
+
+func (c *c16FChan) NewAofWritter(r io.Reader, off int64) (AofChannelWriter, error) {
+	c.mu.Lock()
+	k, fz := c.wfault, c.freeze
+	c.mu.Unlock()
+	if k == 0 && fz == 0 {
+		return c.Channel.NewAofWritter(r, off)
+	}
+	fr := &c16FaultReader{r: r, c: c, k: k, freeze: fz}
+	w, err := c.Channel.NewAofWritter(fr, off)
+	fr.w = w
+	return w, err
+}
+
+func c16CopyTree(src, dst string) {
+	os.RemoveAll(dst)
+	filepath.Walk(src, func(p string, info os.FileInfo, err error) error {
+		if err != nil {
+			return nil
+		}
+		rel, _ := filepath.Rel(src, p)
+		if info.IsDir() {
+			os.MkdirAll(filepath.Join(dst, rel), 0o777)
+			return nil
+		}
+		if b, e := os.ReadFile(p); e == nil {
+			os.WriteFile(filepath.Join(dst, rel), b, 0o666)
+		}
+		return nil
+	})
 }
 
 // ---------------------------------------------------------------- one session on the server side
@@ -881,6 +1197,7 @@ type c16Sess struct {
 	sentIn   []int // request each message was sent in
 	rpc      int // requests seen
 	runIds   int // RunIds reads of the current request
+	chanIds  int // channel.RunId reads of the current request
 	sentRPC  int
 	firstRPC *pb.SyncResponse
 	metas    int
@@ -895,6 +1212,16 @@ type c16Sess struct {
 	tail     []byte
 	contRPC  int  // CONTINUE messages sent in the current request
 	faultRPC bool // a FAULT was sent in the current request
+	errRPC   bool // an ERROR was sent in the current request after the stop / relabel
+	relabel  bool // the leader's input relabelled the channel under the open stream reader (round.Relabel)
+	inflight int  // requests being served
+	reads    map[int][]int // per request: the sizes of the CONTINUE messages as sendData sent them (= its reads), before re-chunking
+	readsAt  int   // … how many of them at the instant of the relabel
+	relOff   int64 // … and the offset that request's stream reader was opened at
+	xright   int64 // RelRead: where the old id's bytes end (lright is moved on to let an unrepaired leader's leak through)
+	reqSeen  bool // a data request (run id given) was seen; the first one:
+	reqId    string
+	reqOff   int64
 	stopped  bool // the leader was stopped (round.Stop) …
 	stopRPC  int  // … during this request
 	halts    map[int]*c16Halt // per request from the stop on: what still got out
@@ -905,6 +1232,16 @@ type c16Sess struct {
 func (ss *c16Sess) hook(point int) {
 	ss.mu.Lock()
 	n := ss.rpc - 1
+	if point == 1 {
+		// channel.RunId(): selfInspection's read is the first of a request; the later ones are
+		// sendData's id check after every read of its loop — the leader's input acts there only
+		// through round.Relabel
+		ss.chanIds++
+		if ss.chanIds > 1 {
+			ss.mu.Unlock()
+			return
+		}
+	}
 	ss.mu.Unlock()
 	ss.rt.moveTo(ss.round.view(n)[point])
 }
@@ -914,7 +1251,7 @@ func (ss *c16Sess) hook(point int) {
 // as abrupt)
 func (ss *c16Sess) quiesce() {
 	ss.mu.Lock()
-	on, want := ss.round.Quiet && ss.aofOn && ss.aofBytes > 0, ss.aofStart+ss.aofBytes
+	on, want := ss.round.Quiet && ss.aofOn && ss.aofBytes > 0 && ss.round.WFault == 0 && !ss.round.WRename && ss.round.WSync == 0, ss.aofStart+ss.aofBytes
 	ss.mu.Unlock()
 	if on {
 		ok := c16Wait(func() bool { _, r := ss.fch.GetOffsetRange(ss.fch.RunId()); return r >= want }, c16Patience)
@@ -955,21 +1292,29 @@ func (w *c16Srv) push(m *pb.SyncResponse) error {
 		ss.aofOn = true
 		ss.aofStart, ss.aofBytes = m.GetOffset(), 0
 	}
-	stopNow := false
+	stopNow, relabelNow := false, false
 	switch m.GetCode() {
 	case pb.SyncResponse_CONTINUE:
 		ss.contRPC++
 		if ss.round.Stop > 0 && !ss.stopped && ss.contRPC == ss.round.Stop {
 			ss.stopped, ss.stopRPC, stopNow = true, ss.rpc, true
 		}
+		if ss.round.Relabel > 0 && !ss.stopped && ss.aofOn && ss.contRPC == ss.round.Relabel {
+			ss.stopped, ss.stopRPC, relabelNow, ss.relabel = true, ss.rpc, true, true
+			ss.readsAt, ss.relOff = len(ss.reads[ss.rpc]), ss.aofStart
+		}
 	case pb.SyncResponse_FAULT:
 		ss.faultRPC = true
+	case pb.SyncResponse_ERROR:
+		if ss.stopped {
+			ss.errRPC = true
+		}
 	}
 	if ss.stopped {
 		if ss.halts == nil {
 			ss.halts = map[int]*c16Halt{}
 		}
-		ss.halts[ss.rpc] = &c16Halt{K: ss.contRPC, Fault: ss.faultRPC}
+		ss.halts[ss.rpc] = &c16Halt{K: ss.contRPC, Fault: ss.faultRPC, Err: ss.errRPC}
 	}
 	ss.mu.Unlock()
 	if err := w.ApiService_SyncServer.Send(m); err != nil {
@@ -978,6 +1323,14 @@ func (w *c16Srv) push(m *pb.SyncResponse) error {
 	if stopNow {
 		// the leader steps down / is stopped: runLeader closes the wait every handler runs under
 		ss.rt.sy.wait.Close(nil)
+	}
+	if relabelNow {
+		// the source failed over (+CONTINUE <new id> on the input's reconnect) while this handler's
+		// stream reader is open: syncer/input.go's order — setRunIds, SetRunId, new writer, new bytes
+		n := ss.rt.failover()
+		ss.mu.Lock()
+		ss.lright += n // an unrepaired leader would go on streaming the new master's bytes: let them through
+		ss.mu.Unlock()
 	}
 	ss.mu.Lock()
 	done := ss.aofOn && ss.aofStart+ss.aofBytes >= ss.lright
@@ -1005,6 +1358,10 @@ func (w *c16Srv) Send(r *pb.SyncResponse) error {
 			ss.tail = tail
 			if ss.rt.ls[ss.rt.cur].D != nil {
 				ss.lright = ss.rt.ls[ss.rt.cur].D.right() + int64(len(tail))
+				if ss.round.RelRead && !ss.stopped {
+					ss.xright = ss.lright
+					ss.lright += 97
+				}
 			}
 		}
 		ss.mu.Unlock()
@@ -1013,6 +1370,14 @@ func (w *c16Srv) Send(r *pb.SyncResponse) error {
 				ss.rt.err = err
 			}
 		}
+	}
+	if r.GetCode() == pb.SyncResponse_CONTINUE {
+		ss.mu.Lock()
+		if ss.reads == nil {
+			ss.reads = map[int][]int{}
+		}
+		ss.reads[ss.rpc] = append(ss.reads[ss.rpc], int(r.GetSize()))
+		ss.mu.Unlock()
 	}
 	if ss.round.Split > 0 && r.GetCode() == pb.SyncResponse_CONTINUE && len(r.GetData()) > 1 {
 		// what sendData emits had ioReader.Read returned smaller pieces
@@ -1040,10 +1405,13 @@ func (w *c16Srv) Send(r *pb.SyncResponse) error {
 func (ss *c16Sess) serve(req *pb.SyncRequest, stream pb.ApiService_SyncServer) error {
 	ss.mu.Lock()
 	ss.rpc++
-	ss.runIds, ss.sentRPC, ss.firstRPC, ss.aofOn = 0, 0, nil, false
-	ss.contRPC, ss.faultRPC = 0, false
+	ss.runIds, ss.chanIds, ss.sentRPC, ss.firstRPC, ss.aofOn = 0, 0, 0, nil, false
+	ss.contRPC, ss.faultRPC, ss.errRPC = 0, false, false
 	rid := req.GetNode().GetRunId()
 	if rid != "" && rid != "?" {
+		if !ss.reqSeen {
+			ss.reqSeen, ss.reqId, ss.reqOff = true, rid, req.GetOffset()
+		}
 		ss.metas++
 		if ss.metas > c16Fuel { // a leader that keeps answering with its snapshot: stop here
 			ss.fuelHit, ss.cutOn = true, true
@@ -1054,10 +1422,12 @@ func (ss *c16Sess) serve(req *pb.SyncRequest, stream pb.ApiService_SyncServer) e
 		ss.mu.Unlock()
 		return c16ErrCut
 	}
+	ss.inflight++
 	ss.mu.Unlock()
 	ss.hook(0)
 	err := ss.rt.sy.ServiceReplica(req, &c16Srv{stream, ss})
 	ss.mu.Lock()
+	ss.inflight--
 	if err != nil && ss.sentRPC == 0 && !ss.cutOn {
 		ss.rpcErr = true
 	}
@@ -1113,7 +1483,7 @@ func (x *c16Ctx) startSession(t *testing.T, srv *c16Server, bk string, logSize i
 	if cut < 0 {
 		cut = 1 << 30
 	}
-	ss := &c16Sess{rt: rt, round: r, cut: cut, rnd: rnd, fch: fch, lright: -1}
+	ss := &c16Sess{rt: rt, round: r, cut: cut, rnd: rnd, fch: fch, lright: -1, xright: -1}
 	if l0.D != nil {
 		ss.lright = l0.D.right()
 	}
@@ -1127,7 +1497,7 @@ func (x *c16Ctx) startSession(t *testing.T, srv *c16Server, bk string, logSize i
 			ss.hook(2)
 		}
 	}
-	rt.leader = NewReplicaLeader(rt.input, &c16LChan{Channel: rt.lch, hook: ss.hook})
+	rt.leader = NewReplicaLeader(rt.input, &c16LChan{Channel: rt.lch, hook: ss.hook, ss: ss})
 	if l0.Started {
 		rt.leader.Start()
 	}
@@ -1404,7 +1774,64 @@ type c16Ctx struct {
 	s *vfutil.Session
 }
 
-func (x *c16Ctx) runCase(t *testing.T, srv *c16Server, c c16Case, src string) (uncutMsgs []int) {
+// observeImage re-opens the directory image of a killed follower with a fresh StoreChannel (on a
+// copy) and returns what it serves for every run-id directory. One `reopen` op per directory
+// ties Model/ReplicaReopen.lean `dataOfReopened` (over C08's `reopen`) to the real re-open.
+func (x *c16Ctx) observeImage(t *testing.T, c c16Case, image string) (c16Store, bool) {
+	var st c16Store
+	ents, _ := os.ReadDir(image)
+	for _, e := range ents {
+		if !e.IsDir() {
+			continue
+		}
+		id := e.Name()
+		files, _ := os.ReadDir(filepath.Join(image, id))
+		var parts []string
+		for _, f := range files {
+			b, err := os.ReadFile(filepath.Join(image, id, f.Name()))
+			if err != nil {
+				return st, false
+			}
+			parts = append(parts, f.Name()+"="+vfutil.Hex(b))
+		}
+		sort.Strings(parts)
+		img := "."
+		if len(parts) > 0 {
+			img = strings.Join(parts, ",")
+		}
+		tmp := t.TempDir()
+		c16CopyTree(filepath.Join(image, id), filepath.Join(tmp, id))
+		ch := c16NewChannel("d", tmp, c.LogSize)
+		ch.StartPoint([]string{id})
+		cur, d, problems, _ := c16ObserveAPI(ch)
+		ch.Close()
+		os.RemoveAll(tmp)
+		if cur != id {
+			return st, false
+		}
+		x.s.Op("reopen "+img, "D "+d.String())
+		x.s.Count("reopen_ops")
+		if strings.Contains(img, ".rdb.tmp=") {
+			x.s.Count("reopen_with_tmp_snapshot")
+		}
+		for _, p := range problems {
+			x.s.Violate("reopened-not-readable", p, map[string]interface{}{"case": c.String(), "image": img, "id": id})
+		}
+		st.Dirs = append(st.Dirs, c16Entry{id, d})
+	}
+	sort.Slice(st.Dirs, func(i, j int) bool { return st.Dirs[i].Id < st.Dirs[j].Id })
+	return st, true
+}
+
+// per round: the number of messages the follower read, and the payload of the FIRST transfer of
+// the session (what the CONTINUE messages after the first data META carried)
+type c16Ran struct {
+	msgs    int
+	payload int
+	rdb     bool // … it was a snapshot
+}
+
+func (x *c16Ctx) runCase(t *testing.T, srv *c16Server, c c16Case, src string) (uncutMsgs []c16Ran) {
 	s := x.s
 	rnd := vfutil.NewRand(c.Seed)
 	dir := t.TempDir()
@@ -1414,6 +1841,8 @@ func (x *c16Ctx) runCase(t *testing.T, srv *c16Server, c c16Case, src string) (u
 		t.Logf("c16: cannot build follower %s: %v", c.F.String(), err)
 		return
 	}
+	fw := &c16FChan{Channel: fch, dir: dir}
+	imageDir := filepath.Join(t.TempDir(), "img")
 	var fol *c16Follower
 	defer func() {
 		if fol != nil {
@@ -1421,8 +1850,13 @@ func (x *c16Ctx) runCase(t *testing.T, srv *c16Server, c c16Case, src string) (u
 		}
 		fch.Close()
 		os.RemoveAll(dir)
+		os.RemoveAll(imageDir)
 	}()
-	before, problems, _ := c16Observe(c.Bk, fch, dir)
+	crashCase := false
+	for _, r := range c.Rounds {
+		crashCase = crashCase || r.Crash > 0
+	}
+	before, problems, _ := c16Observe(c.Bk, fch, dir, crashCase)
 	if len(problems) > 0 || before.String() != c.F.String() {
 		// the constructed state is not the requested one: not a statement about the follower
 		s.Count("skip_initial_state_differs")
@@ -1430,27 +1864,73 @@ func (x *c16Ctx) runCase(t *testing.T, srv *c16Server, c c16Case, src string) (u
 		return
 	}
 	for ri, r := range c.Rounds {
-		if r.Restart && c.Bk == "d" {
+		restart := r.Restart
+		if r.Crash > 0 && c.Bk == "d" {
+			if _, frozen := fw.state(); frozen {
+				// the follower process is killed: nothing it does while stopping counts — the
+				// directory tree is the image frozen in the middle of the previous transfer; a new
+				// process (new Storer, new Run) starts over it
+				if fol != nil {
+					fol.stop()
+					fol = nil
+				}
+				fch.Close()
+				os.RemoveAll(dir)
+				c16CopyTree(imageDir, dir)
+				fch = c16NewChannel(c.Bk, dir, c.LogSize)
+				fw.Channel = fch
+				var ok bool
+				if before, ok = x.observeImage(t, c, imageDir); !ok {
+					s.Count("skip_image_not_observable")
+					return
+				}
+				s.Count("crash_restart")
+			} else {
+				s.Count("crash_point_not_reached") // the transfer was shorter: a clean restart
+				restart = true
+			}
+		}
+		if restart && c.Bk == "d" {
 			if fol != nil {
 				fol.stop()
 				fol = nil
 			}
 			fch.Close()
 			fch = c16NewChannel(c.Bk, dir, c.LogSize)
+			fw.Channel = fch
 			before.Cur = ""
 		}
-		ss, err := x.startSession(t, srv, c.Bk, c.LogSize, fch, r, rnd)
+		freeze := 0
+		if ri+1 < len(c.Rounds) && c.Bk == "d" {
+			freeze = c.Rounds[ri+1].Crash
+		}
+		if c.Bk == "d" {
+			fw.arm(r.WFault, r.WRename, r.WSync, freeze, imageDir)
+		} else {
+			fw.arm(0, false, 0, 0, "")
+		}
+		ss, err := x.startSession(t, srv, c.Bk, c.LogSize, fw, r, rnd)
 		if err != nil {
 			s.Count("skip_build_leader")
 			t.Logf("c16: cannot build leader %s: %v", r.lsString(), err)
 			return
 		}
 		if fol == nil {
-			fol = c16StartFollower(fch, srv.addr) // the real Run, from state 1
+			fol = c16StartFollower(fw, srv.addr) // the real Run, from state 1
 		} else {
 			fol.w.resume <- struct{}{} // Run goes on after its pause
 		}
 		ended, runErr, ok := fol.await()
+		if c.Bk == "d" && (r.WFault > 0 || r.WRename || r.WSync > 0) {
+			// the follower's store failed in the middle of a transfer and its Run has given up: let the
+			// leader's handler finish what it was sending (the transport is not cut in these rounds), so
+			// that the messages of the session do not depend on who was faster
+			c16Wait(func() bool {
+				ss.mu.Lock()
+				defer ss.mu.Unlock()
+				return ss.inflight == 0 || ss.complete || ss.cutOn
+			}, 10*time.Second)
+		}
 		ferr := fol.lg.take()
 		if ended && ferr == nil {
 			ferr = runErr
@@ -1496,13 +1976,32 @@ func (x *c16Ctx) runCase(t *testing.T, srv *c16Server, c c16Case, src string) (u
 				res.lost = aofBytes
 			}
 		}
-		after, problems, stalls := c16Observe(c.Bk, fch, dir)
+		fired, _ := fw.state()
+		if fired && (res.stage == "rdb" || res.stage == "aof") {
+			// the follower's own store failed (the transport's end may win the race for the error Run
+			// logs: the class is taken from the injection, the stage from what the server saw)
+			res.cls = "wfail"
+			res.lost = 0 // the model cuts what the writer was handed at the fault itself
+		}
+		after, problems, stalls := c16Observe(c.Bk, fch, dir, crashCase)
 		if stalls > 0 {
 			// the bytes are there, but a reader does not get past a segment boundary (C05's claim
 			// "a reader keeps following"): counted, not a C16 verdict
 			s.Add("reader_stall_at_boundary", stalls)
 		}
-		uncutMsgs = append(uncutMsgs, len(res.msgs))
+		ran := c16Ran{msgs: len(res.msgs)}
+		for metas, i := 0, 1; i < len(res.msgs) && metas < 2; i++ { // (res.msgs[0] answers the handshake)
+			switch res.msgs[i].GetCode() {
+			case pb.SyncResponse_META:
+				metas++
+				if metas == 1 {
+					ran.rdb = !res.msgs[i].GetMeta().GetAof()
+				}
+			case pb.SyncResponse_CONTINUE:
+				ran.payload += int(res.msgs[i].GetSize())
+			}
+		}
+		uncutMsgs = append(uncutMsgs, ran)
 
 		replay := map[string]interface{}{"case": c.String(), "round": ri, "leader": r.lsString(), "views": r.viewsString(),
 			"follower_before": before.String(), "follower_after": after.String(), "backend": c.Bk}
@@ -1538,20 +2037,84 @@ func (x *c16Ctx) runCase(t *testing.T, srv *c16Server, c c16Case, src string) (u
 				fault = fault || h.Fault
 			}
 			rm.Views = views
-			s.Count("leader_stopped_mid_transfer")
-			if fault {
-				s.Count("leader_stopped_fault")
+			if ss.relabel {
+				s.Count("leader_relabelled_mid_transfer")
+				if r.RelRead {
+					s.Count("leader_relabelled_at_read")
+				}
+			} else {
+				s.Count("leader_stopped_mid_transfer")
+				if fault {
+					s.Count("leader_stopped_fault")
+				}
 			}
 		}
 		unquiet, quiesced := ss.unquiet, ss.quiesced && !ss.stopped
 		ss.mu.Unlock()
-		op := fmt.Sprintf("sess %s %s %s %s %s %d %d %d", c.Bk, rm.lsString(), rm.viewsString(), before.String(), ch, res.cutModel, res.lost, c16Fuel)
+		loss := strconv.FormatInt(res.lost, 10)
+		if c.Bk == "d" && r.WFault > 0 {
+			loss += fmt.Sprintf("w%d", r.WFault)
+		} else if c.Bk == "d" && r.WSync > 0 && res.stage == "rdb" {
+			loss += fmt.Sprintf("w%d", r.WSync) // lost writes reported by the fsync: as if the write had failed there
+		}
+		if c.Bk == "d" && r.WRename {
+			loss += "r"
+		}
+		reqSeen, reqId, reqOff := ss.reqSeen, ss.reqId, ss.reqOff
+		op := fmt.Sprintf("sess %s %s %s %s %s %d %s %d", c.Bk, rm.lsString(), rm.viewsString(), before.String(), ch, res.cutModel, loss, c16Fuel)
 		var out []string
 		for _, m := range res.msgs {
 			out = append(out, c16MsgLine(m))
 		}
 		out = append(out, "end "+res.stage+" "+res.cls, "F "+after.String())
 		s.Op(op, out...)
+		// what the channel API says about the copy held under the current id (writers closed, as at a
+		// promotion) against C06's query formulas on Props/C16Promote.lean's cacheOfData
+		if cur := after.Cur; cur != "" && len(problems) == 0 {
+			fd, _ := after.get(cur)
+			rl, rs := fch.GetRdb(cur)
+			gl, gr := fch.GetOffsetRange(cur)
+			sp, _ := fch.StartPoint(nil)
+			s.Op(fmt.Sprintf("cache %s %s %s", c.Bk, c16Id(cur), fd.String()),
+				fmt.Sprintf("rdb=%d,%d range=%d,%d latest=%d", rl, rs, gl, gr, sp.Offset))
+			s.Count("cache_ops")
+		}
+		// the repaired send loop against Props/C16Reader.lean's LState.run over C05's memory model
+		// (mem_checked_send_serves_own_id): the request during which the leader's input failed over
+		ss.mu.Lock()
+		if l0 := r.Ls[0]; c.Bk == "m" && ss.relabel && r.static() && l0.D != nil && ss.stopRPC > 0 {
+			var sentB []byte
+			sawErr := false
+			for i, m := range ss.sent {
+				if ss.sentIn[i] != ss.stopRPC {
+					continue
+				}
+				switch m.GetCode() {
+				case pb.SyncResponse_CONTINUE:
+					sentB = append(sentB, m.GetData()[:m.GetSize()]...)
+				case pb.SyncResponse_ERROR:
+					sawErr = true
+				}
+			}
+			reads := "."
+			if k := ss.readsAt; k > 0 && k <= len(ss.reads[ss.stopRPC]) {
+				p := make([]string, k)
+				for i, n := range ss.reads[ss.stopRPC][:k] {
+					p[i] = strconv.Itoa(n)
+				}
+				reads = strings.Join(p, ",")
+			}
+			other := "idC"
+			if l0.Cur == "idC" {
+				other = "idD"
+			}
+			g := l0.grown()
+			s.Op(fmt.Sprintf("lsend %d %s %s %d %s %d %s %s", c.LogSize, l0.Cur, other, g.Base, vfutil.Hex(g.Bytes), ss.relOff, reads,
+				vfutil.Hex(c16HistSeg(other, g.right(), g.right()+97))),
+				fmt.Sprintf("sent=%s stopped=%s", vfutil.Hex(sentB), c16B(sawErr)))
+			s.Count("lsend_ops")
+		}
+		ss.mu.Unlock()
 
 		// ---- monitors
 		for _, p := range problems {
@@ -1577,9 +2140,34 @@ func (x *c16Ctx) runCase(t *testing.T, srv *c16Server, c c16Case, src string) (u
 					l0.Cur, fd.right(), lr, res.stage, res.cls, after.String()), replay)
 			}
 		}
+		// the follower never resumes beyond what it durably holds: its first data request of a
+		// session asks for the end of its own copy of that id, or for the offset the leader announced
+		if reqSeen && len(res.msgs) > 0 && res.msgs[0].GetCode() == pb.SyncResponse_META {
+			own := int64(-1)
+			if fd, ok := before.get(reqId); ok && fd != nil && (c.Bk == "d" || before.Cur == reqId) {
+				own = fd.right()
+			}
+			if reqOff != own && reqOff != res.msgs[0].GetOffset() {
+				s.Violate("resume-beyond-durable", fmt.Sprintf("first data request (%s, %d): the follower's copy of %s ends at %d, the leader announced %d",
+					reqId, reqOff, reqId, own, res.msgs[0].GetOffset()), replay)
+			}
+			s.Count("mon_resume_offset")
+		}
+		if fired {
+			s.Count("store_fault_fired")
+			s.Count("store_fault_" + res.stage)
+			if r.WRename {
+				s.Count("store_fault_rename")
+			}
+			if r.WSync > 0 {
+				s.Count("store_fault_fsync")
+			}
+		} else if r.WFault > 0 || r.WRename || r.WSync > 0 {
+			s.Count("store_fault_not_reached")
+		}
 		if unquiet {
 			s.Count("quiescent_cut_not_awaited") // counted as an abrupt cut
-		} else if quiesced && res.lost != 0 {
+		} else if quiesced && res.lost != 0 && !fired {
 			// the cut was made only after the follower's channel reported every sent byte as stored
 			s.Violate("lost-bytes-when-quiescent", fmt.Sprintf("%d bytes the follower had already stored are gone after the cut", res.lost), replay)
 		}
@@ -2076,7 +2664,8 @@ func TestVerifC16(t *testing.T) {
 	}
 	for _, k := range []string{"rel_prefix", "rel_equal", "rel_ahead", "rel_collected", "rel_collected-snap", "rel_far-behind", "rel_otherid-within",
 		"rel_leader-empty", "dynamic_leader", "end_meta_takeover", "end_meta_error", "end_rdb_cut", "end_aof_cut", "end_aof_eof", "end_rdb_eof",
-		"msg_CLEAR", "msg_FAILURE", "msg_FAULT", "ahead_answered_clear", "big_transfer"} {
+		"msg_CLEAR", "msg_FAILURE", "msg_FAULT", "ahead_answered_clear", "big_transfer", "leader_relabelled_mid_transfer",
+		"store_fault_rdb", "store_fault_aof", "store_fault_rename", "crash_restart", "reopen_with_tmp_snapshot", "end_rdb_wfail", "end_aof_wfail"} {
 		if s.Stats[k] == 0 {
 			s.Count("class_not_generated_" + k)
 			s.Stats["class_not_generated_"+k] = 1
@@ -2090,7 +2679,7 @@ func (x *c16Ctx) family(t *testing.T, srv *c16Server, c c16Case, r *vfutil.Rand,
 	if len(ms) == 0 {
 		return
 	}
-	m := ms[0]
+	m, pay0, rdb0 := ms[0].msgs, ms[0].payload, ms[0].rdb
 	// cut after every message (all of them when few, a sample otherwise)
 	var cuts []int
 	for k := 0; k < m; k++ {
@@ -2139,6 +2728,129 @@ func (x *c16Ctx) family(t *testing.T, srv *c16Server, c c16Case, r *vfutil.Rand,
 			cc.Rounds = append(cc.Rounds, c16Round{Ls: []c16Leader{c16Evolve(r, r0.Ls[0])}, Cut: -1, Quiet: true})
 		}
 		x.runCase(t, srv, cc, "stop")
+	}
+	// the follower's own store fails: a file write (anywhere in the first transfer, often inside the
+	// last 8 KiB of a snapshot), the commit of a snapshot; and the follower process is killed in
+	// the middle of a transfer and restarted over the directory image of that instant
+	faults := func(c c16Case, pay0 int, rdb0 bool, tag string) {
+		l0 := c.Rounds[0].Ls[0]
+		if c.Bk != "d" || l0.D == nil || pay0 <= 0 {
+			return
+		}
+		pick := func() int {
+			// the first transfer of the uncut run carried pay0 bytes: a fault / kill inside it, often
+			// inside its last 8 KiB (the last piece a snapshot writer takes from the stream)
+			if pay0 <= 1 {
+				return 1
+			}
+			if r.Chance(1, 2) {
+				back := pay0 - 1
+				if back > 8192 {
+					back = 8192
+				}
+				return pay0 - r.Range(1, back)
+			}
+			return r.Range(1, pay0-1)
+		}
+		next := func(cc *c16Case, r0 c16Round) {
+			if r.Chance(1, 2) { // … and the same Run goes on
+				l2 := r0.Ls[0]
+				if r.Bool() {
+					l2 = c16Evolve(r, r0.Ls[0])
+				}
+				l2.Tail = nil
+				cc.Rounds = append(cc.Rounds, c16Round{Ls: []c16Leader{l2}, Cut: -1, Quiet: true})
+			}
+		}
+		for i := 0; i < 2; i++ {
+			cc := c
+			r0 := c.Rounds[0]
+			r0.Cut, r0.Quiet = -1, true
+			r0.WFault = pick()
+			r0.Split = vfutil.Pick(r, []int{0, 3, 100})
+			cc.Rounds = []c16Round{r0}
+			next(&cc, r0)
+			x.runCase(t, srv, cc, "wfault"+tag)
+		}
+		if rdb0 {
+			cc := c
+			r0 := c.Rounds[0]
+			r0.Cut, r0.Quiet = -1, true
+			r0.WSync = pick()
+			cc.Rounds = []c16Round{r0}
+			next(&cc, r0)
+			x.runCase(t, srv, cc, "wsync"+tag)
+		}
+		if rdb0 {
+			cc := c
+			r0 := c.Rounds[0]
+			r0.Cut, r0.Quiet = -1, true
+			r0.WRename = true
+			cc.Rounds = []c16Round{r0}
+			next(&cc, r0)
+			x.runCase(t, srv, cc, "wrename"+tag)
+		}
+		{
+			cc := c
+			r0 := c.Rounds[0]
+			r0.Cut, r0.Quiet = -1, true
+			l2 := r0.Ls[0]
+			if r.Bool() {
+				l2 = c16Evolve(r, r0.Ls[0])
+			}
+			l2.Tail = nil
+			r1 := c16Round{Ls: []c16Leader{l2}, Cut: -1, Quiet: true, Crash: pick()}
+			cc.Rounds = []c16Round{r0, r1}
+			if r.Chance(1, 3) {
+				cc.Rounds = append(cc.Rounds, c16Round{Ls: []c16Leader{c16Evolve(r, l2)}, Cut: -1, Quiet: true})
+			}
+			x.runCase(t, srv, cc, "crash"+tag)
+		}
+	}
+	faults(c, pay0, rdb0, "")
+	// … and the same for a follower of this leader whose first transfer is the SNAPSHOT (its copy
+	// ends below everything the leader still holds): the snapshot writer's write / commit / kill
+	if l0 := c.Rounds[0].Ls[0]; c.Bk == "d" && !rdb0 && l0.D != nil && l0.D.HasSnap && l0.D.Base > 40 && l0.Serving && l0.Started &&
+		len(l0.Ids) > 0 && l0.Ids[0] == l0.Cur {
+		cs := c
+		cs.Seed = r.U64() >> 1
+		fr := l0.D.Base - int64(r.Range(1, 20))
+		cs.F = c16Store{Cur: l0.Cur, Dirs: []c16Entry{{l0.Cur, c16MkData(l0.Cur, fr-int64(r.Range(1, 20)), fr, false)}}}
+		r0 := c.Rounds[0]
+		r0.Cut, r0.Quiet = -1, true
+		cs.Rounds = []c16Round{r0}
+		if ms := x.runCase(t, srv, cs, "snapbase"); len(ms) > 0 {
+			faults(cs, ms[0].payload, ms[0].rdb, "_snap")
+		}
+	}
+	// the source fails over while the leader's stream reader of this follower is open: the
+	// leader's input relabels the cache and goes on appending the new master's bytes
+	if l0 := c.Rounds[0].Ls[0]; l0.D != nil && l0.Cur != "" {
+		cc := c
+		r0 := c.Rounds[0]
+		r0.Cut, r0.Quiet = -1, true
+		r0.Relabel = 1 + r.Intn(3)
+		r0.Split = vfutil.Pick(r, []int{1, 2, 7, 40})
+		cc.Rounds = []c16Round{r0}
+		if r.Chance(1, 2) { // … and the follower goes on with the leader under its new id
+			l2 := c16Evolve(r, r0.Ls[0])
+			for l2.Cur == r0.Ls[0].Cur {
+				l2 = c16Evolve(r, r0.Ls[0])
+			}
+			cc.Rounds = append(cc.Rounds, c16Round{Ls: []c16Leader{l2}, Cut: -1, Quiet: true})
+		}
+		x.runCase(t, srv, cc, "relabel")
+	}
+	// … the same fail-over at the read point inside sendData's loop: the read that follows the old
+	// id's last byte returns the new master's bytes (the order read -> id check -> Send matters here)
+	if l0 := c.Rounds[0].Ls[0]; l0.D != nil && l0.Cur != "" {
+		cc := c
+		r0 := c.Rounds[0]
+		r0.Cut, r0.Quiet = -1, true
+		r0.RelRead = true
+		r0.Split = vfutil.Pick(r, []int{0, 2, 40})
+		cc.Rounds = []c16Round{r0}
+		x.runCase(t, srv, cc, "relread")
 	}
 	// a follower that is ahead meets a leader whose input has meanwhile moved to another run
 	// id ("wait a moment" = CLEAR comes before the ahead test)
